@@ -141,7 +141,7 @@ func loadEngine(p *propertySpec, h *harnessSpec, tier string) (*interp.Engine, e
 	}
 	solver := h.Solver
 	if solver == "" {
-		solver = "z3"
+		solver = "z3-new"
 	}
 	timeout := h.Timeout
 	if timeout == 0 {
